@@ -57,7 +57,7 @@ def _is_nonzero_dim_fact(t: ast.AST, pol: bool) -> bool:
     return (isinstance(op, ast.Eq) and not pol) or (isinstance(op, (ast.NotEq, ast.Gt)) and pol)
 
 
-@rule("RESUME-ALL-1", props=["C09", "C10"], floor=5)
+@rule("RESUME-ALL-1", props=["C09", "C10", "C07"], floor=5)
 def resume_all(ctx: Ctx) -> None:
     """already_computed says "computed" only after *all* outputs were found complete; an output
     counts as complete only if nchunks_initialized == nchunks and it is not zero-dimensional;
@@ -148,6 +148,8 @@ def resume_all(ctx: Ctx) -> None:
                             helper = t.ref
                 if helper is not None:
                     H, hcfg, hfl = helper, cfg_of(helper), flow_of(repo, helper)
+        if not shape_ok and any(not o.ok for o in ctx.obs):
+            return  # already reported: a truthy return that no scan of the outputs guards
         ctx.need(shape_ok, "already_computed: neither a loop over the outputs nor an all()/any() over them was found")
         ctx.ob(f, None, True, "expression form of the scan over all outputs", sel="all:scan-loop", nontrivial=False)
     # ---- per-output acceptance: completeness and dimensionality established -------------
